@@ -31,6 +31,7 @@ type Case struct {
 	Args []Arg  `json:"args"`
 	Par  *Val   `json:"par,omitempty"`
 	Et   string `json:"et,omitempty"`
+	St   string `json:"st,omitempty"` // storage of the vector / matrix operands: dense sparse
 	Vec  []Val  `json:"vec,omitempty"`
 	Vec2 []Val  `json:"vec2,omitempty"`
 	Exp  Val    `json:"exp"`
@@ -68,8 +69,14 @@ type replayer struct {
 	opRecv  map[string]bool
 	terms   map[string]*exprlib.Term
 	cross   map[string]crossRec
+	agree   map[string]agreeRec
 	nExec   int
 	nJudged int
+}
+
+type agreeRec struct {
+	nan      bool
+	obs, who string
 }
 
 type crossRec struct {
@@ -180,6 +187,25 @@ func (rp *replayer) judge(c *Case, rt string, ti *tinfo, oc outcome, xs []float6
 		return
 	case "idef":
 		rp.count("implementation_defined")
+		return
+	case "agree":
+		// outside the domain: no value is demanded, but equal operands must give results of the
+		// same kind (NaN or not) on every receiver type
+		if oc.panicMsg != "" {
+			rp.mismatch(c, rt, "panic", impl, order, vh.M{"panic": oc.panicMsg})
+			return
+		}
+		key := "agree|" + c.Op + "|" + floatsKey(xs)
+		isNaN := math.IsNaN(oc.o.f)
+		if prev, ok := rp.agree[key]; ok {
+			if prev.nan != isNaN {
+				rp.mismatch(c, rt, "cross", impl, order, vh.M{"observed": oc.o.String(), "other": prev.obs, "other_instance": prev.who})
+			} else {
+				rp.count("agree_ok")
+			}
+		} else {
+			rp.agree[key] = agreeRec{isNaN, oc.o.String(), describe(c)}
+		}
 		return
 	case "opq", "none":
 		vh.Fatal("case with expectation", exp.K)
@@ -310,7 +336,7 @@ func describe(c *Case) string {
 		s += a.T + " " + a.V.String()
 	}
 	if c.Et != "" {
-		s += "dense " + c.Et
+		s += c.St + " " + c.Et
 	}
 	return s + ")"
 }
@@ -566,12 +592,22 @@ func (rp *replayer) runVec(c *Case) {
 	for _, v := range c.Vec2 {
 		xs = append(xs, v.Float())
 	}
+	sparse := c.St == "sparse"
+	isZero := func(x Val) bool { return x.K == "int" && x.Int64() == 0 }
 	fill := func(vals []Val, order int) ad.Vector {
-		v := ad.NullDenseVector(eti.st, len(vals))
-		els := make([]ad.ConstScalar, len(vals))
+		var v ad.Vector
+		if sparse {
+			v = ad.NullSparseVector(eti.st, len(vals))
+		} else {
+			v = ad.NullDenseVector(eti.st, len(vals))
+		}
+		var els []ad.ConstScalar
 		for i, x := range vals {
+			if sparse && isZero(x) {
+				continue // an entry that is not stored
+			}
 			v.At(i).Set(mk(c.Et, x))
-			els[i] = v.At(i)
+			els = append(els, v.At(i))
 		}
 		activate(order, els...)
 		return v
@@ -584,11 +620,19 @@ func (rp *replayer) runVec(c *Case) {
 			var ret ad.Scalar
 			switch c.Op {
 			case "Mtrace", "Mnorm":
-				m := ad.NullDenseMatrix(eti.st, 2, 2)
-				els := make([]ad.ConstScalar, 4)
+				var m ad.Matrix
+				if sparse {
+					m = ad.NullSparseMatrix(eti.st, 2, 2)
+				} else {
+					m = ad.NullDenseMatrix(eti.st, 2, 2)
+				}
+				var els []ad.ConstScalar
 				for i, x := range c.Vec {
+					if sparse && isZero(x) {
+						continue
+					}
 					m.At(i/2, i%2).Set(mk(c.Et, x))
-					els[i] = m.At(i/2, i%2)
+					els = append(els, m.At(i/2, i%2))
 				}
 				activate(order, els...)
 				if c.Op == "Mtrace" {
@@ -910,7 +954,7 @@ func replayMain(args []string) {
 	defer out.Close()
 	rp := &replayer{out: out, orders: []int{0, 1, 2}, counts: map[string]int{}, perSig: map[string]int{},
 		ops: map[string]bool{}, recv: map[string]bool{}, pairs: map[string]bool{}, opRecv: map[string]bool{},
-		terms: map[string]*exprlib.Term{}, cross: map[string]crossRec{}}
+		terms: map[string]*exprlib.Term{}, cross: map[string]crossRec{}, agree: map[string]agreeRec{}}
 	wd := vh.NewWatchdog(60e9, out, vh.M{"engine": "scalartypes"})
 	sawMeta := false
 	err := vh.EachLine(args[0], func(line []byte) error {
